@@ -88,6 +88,12 @@ class Roles:
     def _delegate(self, api_name: str, role: str) -> FuncInfo:
         a = self.api(api_name)
         cs = [c for c in self.callees_of(a) if c.kind == 'function' and c.name != '__init__']
+        # hops inside the Solver class itself (a delegating property / private helper) are looked through
+        for _ in range(3):
+            if len(set(cs)) == 1 and cs[0].cls is a.cls:
+                cs = [c for c in self.callees_of(cs[0]) if c.kind == 'function' and c.name != '__init__']
+            else:
+                break
         return self._unique(role, cs, f'non-trivial callee of Solver.{api_name}')
 
     @property
@@ -174,10 +180,27 @@ class Roles:
                     out.append(c)
         return sorted(set(out), key=lambda f: f.qualname)
 
+    def _outside_container(self, fs: List[FuncInfo]) -> List[FuncInfo]:
+        """Callers found inside the container classes themselves (convenience wrappers) are replaced by their
+        callers: the role belongs to the routine of the method layer that uses the container."""
+        sdc = self.ix.cls('SearchData')
+        out, todo, seen = [], list(fs), set()
+        while todo:
+            f = todo.pop()
+            if self.fq(f) in seen:
+                continue
+            seen.add(self.fq(f))
+            if f.cls is not None and (f.cls is sdc or f.cls.is_subclass_of(sdc)):
+                todo.extend(c for c in self.callers_of(f) if self.fq(c) in self.global_reach)
+            else:
+                out.append(f)
+        return sorted(set(out), key=lambda f: f.qualname)
+
     @property
     def seeding(self) -> FuncInfo:
         return self.memo('seeding', lambda: self._unique(
-            'seeding routine', self.callers_of_any(self.sd_method('InsertFirstDataItem'), self.global_reach),
+            'seeding routine',
+            self._outside_container(self.callers_of_any(self.sd_method('InsertFirstDataItem'), self.global_reach)),
             'caller of InsertFirstDataItem on the global path'))
 
     @property
@@ -363,6 +386,55 @@ class Roles:
                             key_of(ce.d['result']) == key_of(x):
                         out += [c for c in ce.d['callees'] if isinstance(c, FuncInfo) and len(c.param_names) >= 2]
         return sorted(set(out), key=lambda f: f.qualname)
+
+    def role_functions(self) -> Set[str]:
+        """Qualified names of the functions that play a role of their own (anchors of the rules) plus the public
+        operations of the containers, the evolvent queries, the objectives and the listeners."""
+        def build():
+            out: Set[str] = set()
+            for name in ('eval_routine', 'task_wrapper', 'seeding', 'selection', 'renewal', 'optimum_updater',
+                         'characteristic_writer', 'estimate_writer', 'full_recalc', 'stop_routine',
+                         'new_point_routine', 'results_getter', 'refine_driver', 'iter_driver', 'solve_driver'):
+                try:
+                    out.add(self.fq(getattr(self, name)))
+                except (RoleMissing, AnalysisError, KeyError):
+                    pass
+            # operations the property statements and the pinned tests name; other public methods of these classes
+            # (convenience wrappers added later) are looked through like any other glue
+            anchors = {
+                'SearchData': ('InsertDataItem', 'InsertFirstDataItem', 'FindDataItemByOneDimensionalPoint',
+                               'GetDataItemWithMaxGlobalR', 'GetDataItemWithMaxLocalR', 'RefillQueue', 'ClearQueue',
+                               'GetCount', 'GetLastItem', '__iter__', '__next__', 'SaveProgress', 'LoadProgress'),
+                'CharacteristicsQueue': None, 'SearchDataItem': None, 'Evolvent': None, 'OptimizationTask': None,
+                'Solution': None, 'SolverParameters': None,
+            }
+            for cn, names in anchors.items():
+                c = self.ix.find_cls(cn)
+                if c is None:
+                    continue
+                for cc in [c] + c.all_subclasses():
+                    for n, m in cc.methods.items():
+                        if names is not None and n not in names:
+                            continue
+                        if not n.startswith('_') or (n.startswith('__') and n.endswith('__')):
+                            out.add(self.fq(m))
+            out |= {self.fq(p) for p in self.problem_calcs}
+            out |= self.listener_methods()
+            return out
+        return self.memo('role_functions', build)
+
+    def is_glue(self, f: FuncInfo) -> bool:
+        """A function of the solver/method layer that is no anchor itself but through which an anchor is reached
+        (Method.DoIteration bundling the five steps, Process._RunGlobalSearch ...): rules look through it."""
+        q = self.fq(f)
+        if f.kind != 'function' or q in self.role_functions() or f.name == '__init__':
+            return False
+        if not f.module.name.startswith(('iOpt.method', 'iOpt.solver')):
+            return False
+        memo = self._memo.setdefault('glue', {})
+        if q not in memo:
+            memo[q] = bool(self.reach(f) & self.role_functions())
+        return memo[q]
 
     SOLVING_API = ('__init__', 'Solve', 'DoGlobalIteration', 'DoLocalRefinement', 'GetResults', 'AddListener',
                    'RefreshListener')
